@@ -20,6 +20,7 @@ for l in open(log, errors='replace'):
 if 'first_check_exit' not in ev:
     ev['first_check_exit'] = ev.get('check_exit')
 ev['check_exit'] = rc
+ev['verdict_from'] = '/repo itself (tools/recheck_seeded.sh: git apply, ./check, git checkout)'
 ev['first_violation'] = viol
 json.dump(ev, open(p, 'w'))
 print(name, 'exit', rc, viol[:160])
